@@ -135,12 +135,12 @@ SPECS = {
         explanation="theorems over the numeric conversions regenerated from solutions.go on this run; every boundary integer into every destination compared with the model; placeholders compared with the structure of the Go value and with the literal",
     ),
     "C03": dict(
-        level="proof", props_deps=["Proofs/Promise.v", "Proofs/Trampoline.v"], model_deps=ENGINE_MODEL_DEPS, trusted=ENGINE_TRUSTED,
+        level="proof", props_deps=["Proofs/Promise.v", "Proofs/Trampoline.v", "Proofs/FuelMono.v", "Proofs/ForceComplete.v"], model_deps=ENGINE_MODEL_DEPS, trusted=ENGINE_TRUSTED,
         assumptions=["cut placements outside the property's quantifier (a cut nested in a non-top-level disjunction, in a then/else branch or under a left-nested conjunction) are not generated"],
         explanation="as C01, over programs with cut in the placements the property names, \\+, once, ->, call/N, findall",
     ),
     "C04": dict(
-        level="proof", props_deps=["Proofs/Promise.v", "Proofs/Trampoline.v"], model_deps=ENGINE_MODEL_DEPS, trusted=ENGINE_TRUSTED,
+        level="proof", props_deps=["Proofs/Promise.v", "Proofs/Trampoline.v", "Proofs/FuelMono.v", "Proofs/ForceComplete.v"], model_deps=ENGINE_MODEL_DEPS, trusted=ENGINE_TRUSTED,
         assumptions=["only the Formal of error(Formal, Context) is compared"],
         explanation="as C01, over programs with catch/3, throw/1 and built-in errors",
     ),
